@@ -1,18 +1,17 @@
 CONSTANTS
   Clients <- MCClients
-  NQ = 3
-  CmdCap = 2
+  NQ = 1
+  CmdCap = 1
   EvalQE <- MCEval
   Caps = {0, 1}
-  EventIds = {1, 2, 3}
-  MaxCalls = 4
+  EventIds = {1}
+  MaxCalls = 6
   Weak_ErrorAbortsPublish = FALSE
   Weak_BlockOnFullBuffer = FALSE
   Weak_UnsubLeavesQuery = FALSE
-  Weak_DoubleRemoveReleasesForeignRef = FALSE
+  Weak_DoubleRemoveReleasesForeignRef = TRUE
 INIT Init
 NEXT Next
-INVARIANTS ExactDelivery ExplicitCancel RefCount NeverBlockedOnBuffered RegistryAgrees
-PROPERTY Isolation
+INVARIANTS ExactDelivery
 VIEW PSView
 CHECK_DEADLOCK FALSE
